@@ -202,21 +202,32 @@ def coupled_iterations_until_converged_or_cap(ctx, n, maxM, couplers, maxIt):
 
 # ---------------------------------------------------------------------------------------------------------------
 
-@harness("C15", bounds="2 cycles x (2, 1) steps; step lengths in [0.01,1e3] d, power fractions in [0,1], availability "
-                       "in [0.01,1], rated power in [1,1e10] W symbolic; values seen inside the every-node hooks",
-         stubs=STUBS, instances={"quick": [dict(ms=(2, 1)), dict(ms=(1, 0))], "thorough": [dict(ms=(3, 2, 1))]})
+@harness("C15", bounds="2 cycles x (2, 1) steps (also (3, 1), (1, 0)); the run starts at a symbolic (cycle, node) over "
+                       "every existing node (restart in mid-cycle included); step lengths in [0.01,1e3] d, power "
+                       "fractions in [0,1], availability in [0.01,1] - all independent symbols, so non-uniform inside "
+                       "a cycle -, rated power in [1,1e10] W symbolic; values seen inside the every-node hooks",
+         stubs=STUBS, instances={"quick": [dict(ms=(2, 1)), dict(ms=(1, 0)), dict(ms=(3, 1))],
+                                 "thorough": [dict(ms=(3, 2, 1)), dict(ms=(1, 4))]})
 def time_state_seen_inside_hooks(ctx, ms):
     ms = list(ms)
     steps = [[ctx.real("d%d_%d" % (i, k), 1e-2, 1e3) for k in range(m)] for i, m in enumerate(ms)]
     pfs = [[ctx.real("p%d_%d" % (i, k), 0.0, 1.0) for k in range(m)] for i, m in enumerate(ms)]
     av = [ctx.real("a%d" % i, 0.01, 1.0) for i in range(len(ms))]
     P = ctx.real("power", 1.0, 1e10)
+    # the restart point: any node of the history (the time state of a node is a function of (cycle, node) alone,
+    # whatever node the run was started from)
+    sc = pick(ctx.int("startCycle", 0, len(ms) - 1), 0, len(ms) - 1)
+    sn = pick(ctx.int("startNode", 0, max(ms)), 0, max(ms))
+    ctx.assume(sn <= ms[sc])
     cs = UT.mk_cs(nCycles=len(ms), cycles=_cycles(ms, steps, pfs, av), power=P, burnSteps=None)
     specs = [IfaceSpec("A"), IfaceSpec("B")]
     extra = lambda r: (r.core.p.power, r.p.stepLength, r.p.cycleLength, r.p.availabilityFactor, r.p.capacityFactor)
-    o, r, got = _run(cs, (0, 0), specs, extra=extra)
-    want = reference_schedule(ms, (0, 0), specs)
+    o, r, got = _run(cs, (sc, sn), specs, extra=extra)
+    want = reference_schedule(ms, (sc, sn), specs)
     ctx.check("hook calls equal the reference schedule", [e[:5] for e in got] == want)
+    ctx.check("every node from the start on is seen by the every-node hook",
+              [(e[3], e[4]) for e in got if e[0] == "EveryNode" and e[1] == "B"] ==
+              [(c, k) for c in range(sc, len(ms)) for k in range(sn if c == sc else 0, ms[c] + 1)])
     for e in got:
         if e[0] != "EveryNode" or e[1] != "B":
             continue
@@ -239,6 +250,61 @@ def time_state_seen_inside_hooks(ctx, ms):
             # last node of the cycle: same power as the previous node (full power if the cycle has no step)
             ctx.check_close(tag + "last node keeps the power of the previous node", power,
                             (pfs[c][k - 1] if k > 0 else 1.0) * P, scale=P)
+
+
+# ---------------------------------------------------------------------------------------------------------------
+
+def _insert_at(stack, index, item):
+    """Where `addInterface(..., index=...)` documents the interface to go: at the end without an index, otherwise
+    at that position of the stack counted the way Python sequences count (negative from the end, out-of-range
+    positions meaning the nearest end); everything already attached keeps its relative order."""
+    if index is None:
+        p = len(stack)
+    else:
+        p = index if index >= 0 else len(stack) + index
+        p = 0 if p < 0 else (len(stack) if p > len(stack) else p)
+    return stack[:p] + [item] + stack[p:]
+
+
+POS_QUICK = [dict(size=2), dict(size=3)]
+POS_THOROUGH = [dict(size=4)]
+
+
+@harness("C15", bounds="stack assembled by 2..3 (thorough: 4) addInterface calls; the first without position, every "
+                       "later one with index = None or a symbolic int in [-(len+1), len+1] (0, negative, past-the-end "
+                       "included; the proxy itself is handed to addInterface); reverse-at-EOL symbolic on every "
+                       "interface; 1 cycle x 0..1 steps",
+         stubs=STUBS, max_paths=40000, instances={"quick": POS_QUICK, "thorough": POS_THOROUGH})
+def interfaces_added_at_a_position_run_in_stack_order(ctx, size):
+    m = pick(ctx.int("m0", 0, 1), 0, 1)
+    names = ["A", "B", "C", "D"][:size]
+    idx, none, rev = {}, {}, {}
+    for k, nm in enumerate(names):                      # every input declared before any branching
+        idx[nm] = ctx.int("index_" + nm, -(k + 1), k + 1)
+        none[nm] = ctx.bool("noIndex_" + nm)
+        rev[nm] = ctx.bool("reverse_" + nm)
+    cs = UT.mk_cs(nCycles=1, cycles=_cycles([m]), power=1.0e6, burnSteps=None)
+    r = UT.mk_reactor(0, 0)
+    o = UT.mk_operator(cs, r)
+    Rec = UT.recorder_class()
+    log, specs = [], []
+    for k, nm in enumerate(names):
+        reverse = flag(rev[nm])
+        index = None if (k == 0 or flag(none[nm])) else idx[nm]
+        o.addInterface(Rec(r, cs, log, nm, function="f_" + nm), index=index, reverseAtEOL=reverse)
+        got_stack = [i.name for i in o.interfaces]      # (a proxy index has been pinned to one value by now)
+        specs = _insert_at(specs, index, IfaceSpec(nm, reverse=reverse))
+        if ctx.canary and k == size - 1 and index is not None and index == -2 and reverse and not specs[0].reverse:
+            specs = specs[1:] + specs[:1]
+        ctx.check("addInterface #%d puts the interface at the requested position and keeps the others in order" % k,
+                  got_stack == [s.name for s in specs])
+    o.operate()
+    want = reference_schedule([m], (0, 0), specs)
+    ctx.check("hook calls (event, interface, arguments, cycle, node) follow the stack order so assembled "
+              "(reverse-flagged last in reverse at EOL)", log == want)
+    for evName in ("BOL", "BOC", "EveryNode", "EOC", "EOL"):
+        ctx.check("%s: interfaces are called in stack order" % evName,
+                  [e[1] for e in log if e[0] == evName] == [e[1] for e in want if e[0] == evName])
 
 
 # ---------------------------------------------------------------------------------------------------------------
